@@ -74,5 +74,25 @@ cell = montepy.Cell(Input(["1 1 0.5 -1"], BlockType.CELL))
 cell.material = montepy.data_inputs.data_parser.parse_data(Input(["m1 1001.80c 1.0"], BlockType.DATA))
 cell.atom_density = 0.0123456
 bad += not show("cell '1 1 0.5 -1'.atom_density", cell.format_for_mcnp_input((6, 2, 0))[0].split()[2], 0.0123456)
+
+# fixed eb991ca: a displacement entry that an earlier write left off (jumps at the end of an input are dropped)
+import numpy as np  # noqa: E402
+
+tr = montepy.data_inputs.data_parser.parse_data(Input(["tr1 0 2j"], BlockType.DATA))
+tr.displacement_vector = np.array([0.0, 1.0, 0.0])
+first = tr.format_for_mcnp_input((6, 2, 0))  # 'tr1 0 1 '
+tr.displacement_vector = np.array([0.0, 1.0, 5.0])
+words = " ".join(tr.format_for_mcnp_input((6, 2, 0))).split()
+if len(words) < 4:
+    print(f"LOST transform 'tr1 0 2j' written {first!r}, then displacement (0, 1, 5): wrote {' '.join(words)!r}")
+    bad += 1
+else:
+    bad += not show("transform 'tr1 0 2j' written once, then displacement[2]", words[3], 5.0)
+tr = montepy.data_inputs.data_parser.parse_data(Input(["tr1 0 2j"], BlockType.DATA))
+tr.displacement_vector = np.array([0.0, 1.0, 0.0])
+tr.format_for_mcnp_input((6, 2, 0))
+tr.rotation_matrix = np.array([0.0, 1.0, 0.0, -1.0, 0.0, 0.0, 0.0, 0.0, 1.0])
+words = " ".join(tr.format_for_mcnp_input((6, 2, 0))).split()
+bad += not show("transform 'tr1 0 2j' written once, then a rotation matrix: rotation[1]", words[5] if len(words) > 5 else "?", 1.0)
 print("defects reproduced:", bad)
 sys.exit(1 if bad else 0)
